@@ -19,6 +19,8 @@ lookup-long beyond the small scope: time lists of 5..33 samples (regular, irregu
             every sample time, every midpoint, just inside each interval from both ends, outside; two units; 3 policies.
 lookup-near query times strictly before / after every sample time by a relative 4e-6 .. 1e-9 (the ordered comparisons of
             the statement are exact: a sample 1e-6 away is not "not before" the query), three forms / units, 3 policies.
+boundary-conditions  accessor reads by coordinates on grids with every set of periodical axes (incl. d > h).
+lookup-spelling  the same text query time in the decimal spellings float() reads (.5, +.5, 0.50, 5.000000e-01, 1.).
 lookup-history   (E2) call histories on ONE trajectory object: the same number in s, ms, min, h in all 24 orders,
             in every ordered pair of units with mixed UnitValue / str forms, interleaved over the three policies,
             and long histories over all numbers x units x policies, run twice; every answer against the oracle.
@@ -116,6 +118,9 @@ def arrangements(nc):
 
 def _mk_space(space):
     if space[0] == "grid":
+        if len(space) > 4:            # 5th item: the periodical axes, e.g. "xz"
+            return RDGridSpace(w=space[1], h=space[2], d=space[3],
+                               boundary_conditions={a: ("periodical" if a in space[4] else "reflecting") for a in "xyz"})
         return RDGridSpace(w=space[1], h=space[2], d=space[3])
     n = space[1]
     nodes = [RDGraphSpaceNode() for _ in range(n)]
@@ -1266,6 +1271,90 @@ def _check_lookup_near(case, out, stats):
                         out.append(("C17:get_sample_index-near:%s:%s:%s" % (policy, cls, ktail),
                                     "%s returned %r, expected %s" % (ctxt, got, " or ".join(repr(a) for a in accept)), step))
 
+
+# ---- grids with periodical axes; spellings of text queries ------------------------------------------------
+
+BC_SETS = ["", "x", "y", "z", "xy", "xz", "yz", "xyz"]
+SPELL_VALUES = [-0.25, 0.0, 0.125, 0.25, 0.5, 0.75, 1.0, 1.5, 1.75]
+SPELL_LISTS = [[0.25, 0.75, 1.25], [0.0, 0.5, 1.0, 1.5]]
+SPELLINGS = ["plain", "leading-dot", "plus", "plus-leading-dot", "trailing-zero", "exponent", "trailing-dot"]
+
+
+def _check_bc(case, out, stats):
+    """the boundary conditions of a grid say how matter diffuses, not how its cells are numbered: coordinates inside
+    the grid designate cell z*w*h + y*w + x on reflecting and on periodical axes alike."""
+    ns, nsp, nc, space = case["ns"], case["nsp"], case["nc"], case["space"]
+    tr, data, qunit = _mk_traj(ns, nsp, nc, space, 0)
+    _check_accessors(tr, ns, nsp, nc, space, qunit, case["spform"], case["posform"], out, stats, prefix="bc-",
+                     suffix="periodical-%s" % (space[4] or "none"), triple=case.get("triple"),
+                     note="grid %dx%dx%d with periodical axes %r: " % (space[1], space[2], space[3], space[4]))
+
+
+def _spell(v, how):
+    """text of the float v in the given spelling, or None when the spelling does not apply to v."""
+    r = repr(abs(v))
+    sign = "-" if v < 0 else ""
+    if how == "plain":
+        return repr(v)
+    if how == "leading-dot":
+        return sign + r[1:] if r.startswith("0.") and v != 0 else None
+    if how == "plus":
+        return "+" + r if v > 0 else None
+    if how == "plus-leading-dot":
+        return "+" + r[1:] if r.startswith("0.") and v > 0 else None
+    if how == "trailing-zero":
+        return repr(v) + "0"
+    if how == "exponent":
+        return "%e" % v
+    if how == "trailing-dot":
+        return sign + r[:-1] if r.endswith(".0") else None
+    raise ValueError(how)
+
+
+def _check_spelling(case, out, stats):
+    """the same query time written in the decimal spellings Python's float() reads (.5, +.5, 0.50, 5.000000e-01, 1.):
+    a spelling the library refuses is counted (the grammar of quantities is C18's), an accepted one must give the
+    answer of the time it denotes."""
+    times = [F(x) for x in case["times"]]
+    tunit, qunit = case["tunit"], case["qunit"]
+    n = len(times)
+    T = [x * _tscale(tunit) for x in times]
+    system = _mk_system(1, ["grid", 1, 1, 1])
+    tr = RDTrajectory(UnitArray([0.0] * n, "molecule"), UnitArray([float(x) for x in times], tunit), system)
+    only = case.get("only")
+    step = 0
+    for v in SPELL_VALUES:
+        for how in SPELLINGS:
+            txt = _spell(v, how)
+            if txt is None or float(txt) != v:
+                continue
+            arg = "%s %s" % (txt, qunit)
+            for policy in POLICIES:
+                step += 1
+                if only is not None and step != only:
+                    continue
+                accept = _accept_set(policy, T, tunit, v, qunit)
+                stats["transitions"] += 1
+                stats["evaluations"] += 1
+                ctxt = "t=%s %s, get_sample_index(%r, %r)" % ([float(x) for x in times], tunit, arg, policy)
+                try:
+                    got = tr.get_sample_index(arg, policy)
+                except Exception as e:
+                    if how == "plain":
+                        out.append(("C17:get_sample_index-spelling:%s:unexpected-exception:plain" % policy,
+                                    "%s raised %s: %s" % (ctxt, type(e).__name__, e), step))
+                    else:
+                        stats["spelling_rejected"] += 1
+                    continue
+                stats["spelling_accepted"] += 1
+                if got is not None and not isinstance(got, bool) and isinstance(got, numbers.Integral):
+                    got = int(got)
+                if got not in accept:
+                    out.append(("C17:get_sample_index-spelling:%s:wrong-answer:%s:%s" % (
+                        policy, how, "same-unit" if qunit == tunit else "cross-unit"),
+                        "%s returned %r, expected %s (the text denotes %r %s)" % (
+                            ctxt, got, " or ".join(repr(a) for a in accept), v, qunit), step))
+
 # ---- unknown species -------------------------------------------------------------------------------
 
 def _check_unknown(case, out, stats):
@@ -1357,7 +1446,7 @@ _STAT_KEYS = ("transitions", "evaluations", "near_tie", "near_tie_not_lattice_an
               "provenance_save_load_raised", "provenance_unexpected_data_length", "provenance_trajectories_read",
               "carrier_accepted", "carrier_rejected", "carrier_coordinates_do_not_fit",
               "network_edits_read", "network_edit_rejected", "network_edit_not_determined",
-              "long_lookups_strictly_inside", "near_lookups_decided_strictly")
+              "long_lookups_strictly_inside", "near_lookups_decided_strictly", "spelling_accepted", "spelling_rejected")
 
 
 def _new_stats():
@@ -1388,6 +1477,12 @@ def check_case(case, stats=None):
             _check_lookup_modify(case, out, stats)
         elif sub == "provenance":
             _check_provenance(case, out, stats)
+        elif sub == "boundary-conditions":
+            _check_bc(case, out, stats)
+        elif sub == "lookup-spelling":
+            sp3 = []
+            _check_spelling(case, sp3, stats)
+            out.extend((k, w) for (k, w, st) in sp3)
         elif sub == "lookup-long":
             _check_lookup_long(case, out, stats)
         elif sub == "lookup-near":
@@ -1645,6 +1740,32 @@ def _spaces(tier):
                "every accessor against direct indexing on the caller's grid" % (pengines, pgrids, len(pfirst)),
                gen_prov, len(pgrids) * (len(PRODUCERS) * len(pengines) + len(CTOR_MISMATCH)) * len(POSTS) * len(pfirst), 3))
 
+    # ---- grids with periodical axes
+    bncs = (2, 3, 4, 6) if tier != "thorough" else (2, 3, 4, 6, 8, 12)
+    bgrids = [[w, h, d] for nc in bncs for (w, h, d) in factorisations(nc)]
+    if tier != "thorough":
+        bgrids.append([2, 2, 3])
+
+    def gen_bc():
+        for (w, h, d) in bgrids:
+            for bc in BC_SETS:
+                for posform in GRID_POSFORMS:
+                    yield {"sub": "boundary-conditions", "ns": 2, "nsp": 2, "nc": w * h * d, "space": ["grid", w, h, d, bc],
+                           "spform": "index", "posform": posform}
+    sp.append(("boundary-conditions: %d grids (every w x h x d factorisation of %s cells%s) x all 8 sets of periodical axes x 4 "
+               "position forms, 2 samples x 2 species; every triple through every accessor"
+               % (len(bgrids), list(bncs), "" if tier == "thorough" else " + 2x2x3"),
+               gen_bc, len(bgrids) * len(BC_SETS) * len(GRID_POSFORMS), 16))
+
+    def gen_spell():
+        for times in SPELL_LISTS:
+            for tunit in TUNITS:
+                for qunit in (tunit, OTHER_TUNIT[tunit]):
+                    yield {"sub": "lookup-spelling", "times": times, "tunit": tunit, "qunit": qunit}
+    sp.append(("lookup-spelling: 2 time lists x 4 storage units x {same, another} query unit; 9 query values written as %s "
+               "(where float() reads the text back as the value); 3 policies" % SPELLINGS,
+               gen_spell, len(SPELL_LISTS) * 4 * 2, 2))
+
     # ---- network edited through its setters
     if tier == "thorough":
         nshapes = [(sh, sp_) for sh in shapes() for sp_ in arrangements(sh[2])]
@@ -1715,8 +1836,10 @@ def _nontrivial(case):
         return case["ns"] * case["nsp"] * case["nc"] > 1
     if sub in ("lookup", "lookup-dup"):
         return len(case["times"]) > 1 or case["tunit"] != case["qunit"]
-    if sub in ("lookup-long", "lookup-near"):
+    if sub in ("lookup-long", "lookup-near", "lookup-spelling"):
         return True
+    if sub == "boundary-conditions":
+        return case["space"][4] != ""
     if sub == "lookup-history":
         return case.get("v", 1.0) != 0.0          # the number 0 is the same time in every unit
     if sub in ("accessor-history", "accessor-modify"):
@@ -1811,6 +1934,29 @@ def _minimise(ctx):
                 hit = [w for (kk, w) in check_case(c2) if kk == v.key]
                 if hit:
                     v.case, v.what = c2, hit[0]
+            elif case.get("sub") == "boundary-conditions" and "triple" not in case:
+                done = False
+                for k in range(case["ns"]):
+                    for s_ in range(case["nsp"]):
+                        for c in range(case["nc"]):
+                            c2 = dict(case)
+                            c2["triple"] = [k, s_, c]
+                            hit = [w for (kk, w) in check_case(c2) if kk == v.key]
+                            if hit:
+                                v.case, v.what, done = c2, hit[0], True
+                                break
+                        if done:
+                            break
+                    if done:
+                        break
+            elif case.get("sub") == "lookup-spelling" and "only" not in case:
+                for st in range(1, len(SPELL_VALUES) * len(SPELLINGS) * 3 + 1):
+                    c2 = dict(case)
+                    c2["only"] = st
+                    hit = [w for (kk, w) in check_case(c2) if kk == v.key]
+                    if hit:
+                        v.case, v.what = c2, hit[0]
+                        break
             elif case.get("sub") == "lookup-near" and "only" not in case:
                 c0 = dict(case)
                 nsteps = len(case["times"]) * 3 * 2 * 3 * 3
